@@ -48,9 +48,14 @@ def jsonable(x):
         if x in (float("inf"), float("-inf")):
             return "inf" if x > 0 else "-inf"
         return x
+    if isinstance(x, int) and not isinstance(x, bool) and x.bit_length() > 4000:
+        return {"int_hex": hex(x)[:70] + "...", "bits": x.bit_length()}   # decimal conversion of huge ints is refused by CPython
     if isinstance(x, (str, int, bool)) or x is None:
         return x
-    return repr(x)
+    try:
+        return repr(x)
+    except ValueError:
+        return f"<{type(x).__name__} without a printable form>"
 
 
 def digest(obj) -> str:
